@@ -17,14 +17,28 @@
    `slab_near`): the fraction of probes the property does not quantify over.
    Structural problems (records out of order, Abort, missing Close) reject the trace.
 
-   Records: Scene(scene) Built(ok,msg,names) Probes(iz,lab,fail)* EndScene ... Close *)
+   ORACLE-DECIDED part (labelled as such; real-valued geometry is outside what TLC can own):
+   scenes of the family "oracle" (regular prisms with any number of sides and orientation,
+   parallelepipeds, general rotations) arrive with the expected label of every probe computed
+   by analytic membership functions in the harness, written from the documented definitions
+   (`ora`; -1 = within 1e-5 of a face: excluded).  TLC only compares:
+     C09.OraclePointInVolume    reported label # oracle label
+   Named deviations, counted, never hidden (a disagreement is attributed to one only if the
+   reported label equals the label under that precise description of the deviating behaviour):
+     ParallelepipedAlphaYExtent (F-PARA-1)  `alt`: the parallelepiped's y faces lie at
+        +-hy*cos(alpha) instead of the documented +-hy
+     ParallelepipedBBoxTooSmall (F-PARA-2)  `alt2`: in addition the shape is clipped by its
+        bounding box, which is built from edge vectors of the wrong length when alpha or theta # 0
+
+   Records: Scene(scene) Built(ok,msg,names) (Probes(iz,lab,fail) | OProbes(iz,lab,fail,ora,alt))*
+            EndScene ... Close *)
 EXTENDS Solids, TLC, Json, IOUtils, SequencesExt
 
 TraceLog == ndJsonDeserialize(IOEnv.TRACE)
 N == Len(TraceLog)
 
-VARIABLES l, pc, sc, names, viol, stat
-vars == <<l, pc, sc, names, viol, stat>>
+VARIABLES l, pc, sc, names, viol, stat, dev
+vars == <<l, pc, sc, names, viol, stat, dev>>
 Rec == TraceLog[l]
 
 MaxNotes == 6     \* failing probes recorded per scene (all are counted)
@@ -51,28 +65,30 @@ Classify(rec, i) ==
 Count(res, c) == Cardinality({i \in DOMAIN res : res[i][1] = c})
 
 Init ==
-  /\ l = 1 /\ pc = "idle" /\ sc = <<>> /\ names = <<>> /\ viol = {}
+  /\ l = 1 /\ pc = "idle" /\ sc = <<>> /\ names = <<>> /\ viol = {} /\ dev = {}
   /\ stat = [scenes |-> 0, built |-> 0, failed_builds |-> 0, probes |-> 0, compared |-> 0,
              near |-> 0, overlap |-> 0, nowhere |-> 0, bad |-> 0, init_failed |-> 0,
              slab_probes |-> 0, slab_near |-> 0,
+             oracle_scenes |-> 0, oracle_probes |-> 0, oracle_compared |-> 0, oracle_near |-> 0, oracle_bad |-> 0,
+             oracle_deviation |-> 0, oracle_deviation_bbox |-> 0,
              in_exterior |-> 0, in_background |-> 0, in_material |-> 0, in_daughter |-> 0]
 
 TScene ==
   /\ pc = "idle" /\ Rec.e = "Scene"
   /\ sc' = Rec.scene /\ pc' = "built" /\ names' = <<>>
-  /\ stat' = [stat EXCEPT !.scenes = @ + 1]
-  /\ UNCHANGED viol
+  /\ stat' = [stat EXCEPT !.scenes = @ + 1, !.oracle_scenes = @ + (IF "oracle" \in DOMAIN Rec.scene THEN 1 ELSE 0)]
+  /\ UNCHANGED <<viol, dev>>
 
 TBuilt ==
   /\ pc = "built" /\ Rec.e = "Built"
   /\ names' = Rec.names
   /\ IF Rec.ok
-     THEN /\ pc' = "probes" /\ UNCHANGED viol
+     THEN /\ pc' = (IF "oracle" \in DOMAIN sc THEN "oprobes" ELSE "probes") /\ UNCHANGED viol
           /\ stat' = [stat EXCEPT !.built = @ + 1]
      ELSE /\ pc' = "end"
           /\ viol' = viol \cup {<<"C09.ConstructionSucceeds", sc.id, Rec.msg>>}
           /\ stat' = [stat EXCEPT !.failed_builds = @ + 1]
-  /\ UNCHANGED sc
+  /\ UNCHANGED <<sc, dev>>
 
 \* which kind of volume an (agreed) label names: coverage accounting only
 UnitLabels(k) == {sc.units[k].materials[m].label \o "@" \o sc.units[k].name : m \in DOMAIN sc.units[k].materials}
@@ -109,20 +125,57 @@ TProbes ==
                              !.in_background = @ + Cardinality({i \in DOMAIN res : res[i][1] = "ok" /\ res[i][2] = sc.units[1].bg \o "@u0"}),
                              !.in_material = @ + Cardinality({i \in DOMAIN res : res[i][1] = "ok" /\ IsMaterialLabel(res[i][2])}),
                              !.in_daughter = @ + Cardinality({i \in DOMAIN res : res[i][1] = "ok" /\ IsDaughterLabel(res[i][2])})]
+  /\ UNCHANGED <<pc, sc, names, dev>>
+
+\* oracle-decided scenes: the expectation is an environment fact of the trace
+TOProbes ==
+  /\ pc = "oprobes" /\ Rec.e = "OProbes"
+  /\ Len(Rec.lab) = sc.grid.n * sc.grid.n /\ Len(Rec.ora) = Len(Rec.lab) /\ Len(Rec.alt) = Len(Rec.lab)
+  /\ Len(Rec.alt2) = Len(Rec.lab)
+  /\ LET got(i) == IF \E k \in DOMAIN Rec.fail : Rec.fail[k] = i - 1 THEN -2 ELSE Rec.lab[i]
+         near == {i \in DOMAIN Rec.lab : Rec.ora[i] = -1}
+         ok == {i \in DOMAIN Rec.lab : Rec.ora[i] # -1 /\ got(i) = Rec.ora[i]}
+         devi == {i \in DOMAIN Rec.lab : Rec.ora[i] # -1 /\ got(i) # Rec.ora[i] /\ Rec.alt[i] # -1 /\ got(i) = Rec.alt[i]}
+         devb == {i \in DOMAIN Rec.lab : Rec.ora[i] # -1 /\ got(i) # Rec.ora[i] /\ i \notin devi
+                                          /\ Rec.alt2[i] # -1 /\ got(i) = Rec.alt2[i]}
+         bad == (DOMAIN Rec.lab) \ (near \cup ok \cup devi \cup devb)
+         have == Cardinality({v \in viol : v[1] = "C09.OraclePointInVolume" /\ v[2] = sc.id})
+         room == IF have >= MaxNotes THEN 0 ELSE MaxNotes - have
+         noted == {i \in bad : Cardinality({j \in bad : j <= i}) <= room}
+         name(k) == IF k = -2 THEN "!failed" ELSE IF k = -1 THEN "?" ELSE names[k + 1]
+     IN
+     /\ viol' = viol \cup {<<"C09.OraclePointInVolume", sc.id,
+                             [p2 |-> <<PointOf(sc.grid, Rec.iz, i)[1], PointOf(sc.grid, Rec.iz, i)[2], PointOf(sc.grid, Rec.iz, i)[3]>>,
+                              expected |-> name(Rec.ora[i]), reported |-> name(got(i))]>> : i \in noted}
+     /\ dev' = dev \cup (IF devi = {} THEN {}
+                          ELSE LET i == CHOOSE k \in devi : \A j \in devi : k <= j
+                               IN {<<"ParallelepipedAlphaYExtent", sc.id,
+                                     [p2 |-> <<PointOf(sc.grid, Rec.iz, i)[1], PointOf(sc.grid, Rec.iz, i)[2], PointOf(sc.grid, Rec.iz, i)[3]>>,
+                                      expected |-> name(Rec.ora[i]), reported |-> name(got(i))]>>})
+                   \cup (IF devb = {} THEN {}
+                          ELSE LET i == CHOOSE k \in devb : \A j \in devb : k <= j
+                               IN {<<"ParallelepipedBBoxTooSmall", sc.id,
+                                     [p2 |-> <<PointOf(sc.grid, Rec.iz, i)[1], PointOf(sc.grid, Rec.iz, i)[2], PointOf(sc.grid, Rec.iz, i)[3]>>,
+                                      expected |-> name(Rec.ora[i]), reported |-> name(got(i))]>>})
+     /\ stat' = [stat EXCEPT !.oracle_probes = @ + Len(Rec.lab), !.oracle_near = @ + Cardinality(near),
+                             !.oracle_compared = @ + Cardinality(ok) + Cardinality(devi) + Cardinality(devb) + Cardinality(bad),
+                             !.oracle_bad = @ + Cardinality(bad), !.oracle_deviation = @ + Cardinality(devi),
+                             !.oracle_deviation_bbox = @ + Cardinality(devb),
+                             !.init_failed = @ + Len(Rec.fail)]
   /\ UNCHANGED <<pc, sc, names>>
 
 TEndScene ==
-  /\ pc \in {"probes", "end"} /\ Rec.e = "EndScene"
+  /\ pc \in {"probes", "oprobes", "end"} /\ Rec.e = "EndScene"
   /\ pc' = "idle" /\ sc' = <<>> /\ names' = <<>>
-  /\ UNCHANGED <<viol, stat>>
+  /\ UNCHANGED <<viol, stat, dev>>
 
 TClose ==
   /\ pc = "idle" /\ Rec.e = "Close" /\ l = N
-  /\ UNCHANGED <<pc, sc, names, viol, stat>>
+  /\ UNCHANGED <<pc, sc, names, viol, stat, dev>>
 
 Next ==
   /\ l <= N /\ l' = l + 1
-  /\ \/ TScene \/ TBuilt \/ TProbes \/ TEndScene \/ TClose
+  /\ \/ TScene \/ TBuilt \/ TProbes \/ TOProbes \/ TEndScene \/ TClose
 Spec == Init /\ [][Next]_vars
 
 Accepted ==
@@ -130,5 +183,5 @@ Accepted ==
   IF d - 1 = N /\ TraceLog[N].e = "Close" THEN TRUE
   ELSE /\ PrintT(<<"REJECTED", d, TraceLog[IF d <= N THEN d ELSE N].e>>)
        /\ FALSE
-Report == (l = N + 1) => PrintT(<<"SUMMARY", ToJson([viol |-> viol, stat |-> stat])>>)
+Report == (l = N + 1) => PrintT(<<"SUMMARY", ToJson([viol |-> viol, dev |-> dev, stat |-> stat])>>)
 =============================================================================
